@@ -165,6 +165,24 @@ Theorem C02_llo_quote_between_data_sources :
 Proof. exact OutcomeEndToEnd.llo_quote_between_data_sources. Qed.
 Print Assumptions C02_llo_quote_between_data_sources.
 
+Theorem C02_llo_tsv_median_between_data_sources :
+  forall h check codec_ok cf seq prev_bytes (ss : list (OutcomeEndToEnd.lsender)) prev next sid t d,
+  ReportsNoPanic.bok prev_bytes -> OutcomeEndToEnd.lsenders_ok codec_ok cf seq prev_bytes ss -> 1 < seq ->
+  Outcome.outcome_step h cf seq prev (map fst (OutcomeEndToEnd.tagged check codec_ok cf seq prev_bytes ss)) = Ok next ->
+  base.lookup (sid, 1) (Outcome.o_aggs next) = Some (STsv t (SDec d)) ->
+  honest_tsv (OutcomeAggRange.accepted_vals (OutcomeEndToEnd.tagged check codec_ok cf seq prev_bytes ss) sid) ->
+  (fpres (OutcomeAggRange.accepted_vals (OutcomeEndToEnd.tagged check codec_ok cf seq prev_bytes ss) sid) <
+   hpres (OutcomeAggRange.accepted_vals (OutcomeEndToEnd.tagged check codec_ok cf seq prev_bytes ss) sid))%nat ->
+  base.lookup (sid, 1) (Outcome.o_aggs prev) = Some (STsv t (SDec d)) \/
+  exists i1 i2 i3 i4 tl th dl dh x1 x2 t1 t2,
+    (exists rms ups vals, In (OutcomeEndToEnd.LCorrect i1 rms ups vals) ss) /\ (exists rms ups vals, In (OutcomeEndToEnd.LCorrect i2 rms ups vals) ss) /\
+    (exists rms ups vals, In (OutcomeEndToEnd.LCorrect i3 rms ups vals) ss) /\ (exists rms ups vals, In (OutcomeEndToEnd.LCorrect i4 rms ups vals) ss) /\
+    base.lookup sid (OutcomeEndToEnd.oi_vals i1) = Some (STsv tl x1) /\ base.lookup sid (OutcomeEndToEnd.oi_vals i2) = Some (STsv th x2) /\ tl <= t <= th /\
+    base.lookup sid (OutcomeEndToEnd.oi_vals i3) = Some (STsv t1 (SDec dl)) /\ base.lookup sid (OutcomeEndToEnd.oi_vals i4) = Some (STsv t2 (SDec dh)) /\
+    dle dl d /\ dle d dh.
+Proof. exact OutcomeEndToEnd.llo_tsv_median_between_data_sources. Qed.
+Print Assumptions C02_llo_tsv_median_between_data_sources.
+
 Theorem C02_llo_timestamp_between_clocks :
   forall h check codec_ok cf seq prev_bytes (ss : list (OutcomeEndToEnd.lsender)) prev next,
   ReportsNoPanic.bok prev_bytes -> OutcomeEndToEnd.lsenders_ok codec_ok cf seq prev_bytes ss -> 1 < seq ->
